@@ -32,7 +32,11 @@ RULE = ('fragments: random ASTs of 1-5 (thorough 1-8) atoms covering every '
         ' Also: double-bond stereo statements (a-c=d-b skeletons x '
         'cis/trans/notspecified x negation) on E/Z molecules; fragments '
         'that mention rings additionally on 18 ring-rich molecules (chain '
-        'bond between rings, spiro, bridged, fused). ')
+        'bond between rings, spiro, bridged, fused). '
+        ' '
+        'Rounds 17-19: copies / pickles of query objects held to the'
+        ' denotation (where the object can be cloned); shared query and'
+        ' molecule objects from four threads.')
 ASSUMPTIONS = [
     'molecule facts (ring membership, SSSR ring sizes, aromatic flags, '
     'charges, radical electrons, bond types) are RDKit input, not under test',
